@@ -112,8 +112,31 @@ func ruleCRASH1(c *Ctx) {
 }
 
 func isEscapeSwitch(info *types.Info, sw *ast.SwitchStmt) bool {
-	// switch lit[i+1] { case 'n': ... }
-	ix, ok := ast.Unparen(sw.Tag).(*ast.IndexExpr)
+	return isEscapeSwitchIn(info, nil, sw)
+}
+
+// isEscapeSwitchIn: switch lit[i+1] { case 'n': ... }, the tag possibly held in a local.
+func isEscapeSwitchIn(info *types.Info, scope ast.Node, sw *ast.SwitchStmt) bool {
+	tag := ast.Unparen(sw.Tag)
+	if id, ok := tag.(*ast.Ident); ok {
+		// find the enclosing function to resolve the local
+		if scope != nil {
+			tag = resolveVia(info, localDefs(info, scope), id)
+		} else if info.Uses[id] != nil {
+			// byte-typed local compared with character constants: accept when every label is a
+			// character constant
+			all := len(sw.Body.List) > 0
+			for _, cl := range sw.Body.List {
+				for _, l := range cl.(*ast.CaseClause).List {
+					if bl, ok := ast.Unparen(l).(*ast.BasicLit); !ok || bl.Kind != token.CHAR {
+						all = false
+					}
+				}
+			}
+			return all
+		}
+	}
+	ix, ok := tag.(*ast.IndexExpr)
 	if !ok {
 		return false
 	}
@@ -551,11 +574,33 @@ func ruleCRASH3(c *Ctx) {
 	handled := map[int64]int64{} // escape letter => number of following characters consumed
 	var esw *ast.SwitchStmt
 	ast.Inspect(ue.Body, func(n ast.Node) bool {
-		if sw, ok := n.(*ast.SwitchStmt); ok && sw.Tag != nil && isEscapeSwitch(info, sw) {
+		if sw, ok := n.(*ast.SwitchStmt); ok && sw.Tag != nil && isEscapeSwitchIn(info, ue, sw) {
 			esw = sw
 		}
 		return true
 	})
+	// single-character escapes delegated to a helper: switch over the helper's parameter
+	for _, sc := range funcScope(p, pk, ue, 1) {
+		hd, ok := sc.node.(*ast.FuncDecl)
+		if !ok || hd == ue {
+			continue
+		}
+		ast.Inspect(hd.Body, func(n ast.Node) bool {
+			sw, ok := n.(*ast.SwitchStmt)
+			if !ok || sw.Tag == nil || usesObj(info, sw.Tag) != paramObj(info, hd, 0) {
+				return true
+			}
+			for _, cl := range sw.Body.List {
+				cc := cl.(*ast.CaseClause)
+				for _, l := range cc.List {
+					if v, ok := constInt(info, l); ok {
+						handled[v] = 0
+					}
+				}
+			}
+			return true
+		})
+	}
 	if esw == nil {
 		c.unres(rule, "parser.unescape/switch", p.Pos(ue.Pos()), "escape switch not found")
 		return
@@ -1069,21 +1114,8 @@ func ruleCRASH6(c *Ctx) {
 		return
 	}
 	info2 := pk2.TypesInfo
-	var conj []string
-	ast.Inspect(gen.Body, func(n ast.Node) bool {
-		rs, ok := n.(*ast.ReturnStmt)
-		if !ok || len(rs.Results) != 1 {
-			return true
-		}
-		for _, cj := range conjuncts(rs.Results[0]) {
-			if call, ok := cj.(*ast.CallExpr); ok {
-				if fn := calleeFunc(info2, call); fn != nil {
-					conj = append(conj, fn.Name())
-				}
-			}
-		}
-		return true
-	})
+	conj := stageSequence(pk2, gen)
+	_ = info2
 	have := map[string]bool{}
 	for _, s := range conj {
 		have[s] = true
